@@ -475,7 +475,7 @@ func phaseMconn(r *vk.Run) {
 	} else {
 		cfgs = []*mcCfg{
 			{name: "2ch(1,10),payload4", chIDs: two, prios: []int{1, 10}, payload: 4, queueCap: 2, sizes: small, depth: 7, partial: true, stats: true},
-			{name: "2ch(1,1),payload4", chIDs: two, prios: []int{1, 1}, payload: 4, queueCap: 2, sizes: small, depth: 7, partial: true, stats: true},
+			{name: "2ch(1,1),payload4", chIDs: two, prios: []int{1, 1}, payload: 4, queueCap: 2, sizes: small, depth: 6, partial: true, stats: true},
 			{name: "3ch(1,5,10),payload4", chIDs: three, prios: []int{1, 5, 10}, payload: 4, queueCap: 2, sizes: small, depth: 6, partial: true},
 			{name: "2ch(1,10),payload32768", chIDs: two, prios: []int{1, 10}, payload: 32768, queueCap: 2, sizes: big, depth: 5, partial: true},
 		}
